@@ -44,6 +44,12 @@ func (b *Box) Clone() any {
 	return &Box{Items: append([]int(nil), b.Items...)}
 }
 
+// IntList is a Cloner whose dynamic type is a slice: two keys of the store may hold slices that start at
+// the same element with different lengths (all and all[:1]); each is cloned as what it is.
+type IntList []int
+
+func (l IntList) Clone() any { return append(IntList(nil), l...) }
+
 // ErrSentinel is a shared error value used to observe Inner identity and de-duplication.
 var ErrSentinel = errors.New("sentinel")
 
@@ -305,6 +311,8 @@ func CanonState(st map[string]any) string {
 			} else {
 				fmt.Fprintf(&sb, "box%v", x.Items)
 			}
+		case IntList:
+			fmt.Fprintf(&sb, "list%v", []int(x))
 		default:
 			canon(&sb, x)
 		}
@@ -414,6 +422,11 @@ func ApplyStateOps(st map[string]any, id, off, ops int) {
 	}
 	if ops&8 != 0 {
 		st["k"+strconv.Itoa(id%3)] = off
+	}
+	if ops&128 != 0 {
+		all := IntList{id, id + 1, id + 2}
+		st["all"] = all
+		st["head"] = all[:1]
 	}
 	if ops&16 != 0 {
 		delete(st, "k"+strconv.Itoa((id+1)%3))
